@@ -9,6 +9,8 @@ state / accepted event, i.e. every finite event sequence the LTS accepts (any nu
 message sizes, faults, timer firings, Close).
 -/
 import KafkaVerif.Lemmas.WriterProgress
+import KafkaVerif.Lemmas.WriterQueued
+import KafkaVerif.Lemmas.WriterQuiesce
 import KafkaVerif.Gen.WriterConsts
 
 namespace KV.C08
@@ -140,13 +142,22 @@ theorem detach_reason (cfg : Cfg) (s s' : State) (pw b : Nat) (why : Why) (size 
   all_goals (first | (cases hs; done) | skip)
   rename_i _ P hP _ B hB hg
   cases hs
-  exact ⟨P, B, hP, hB, hg.1, hg.2.2.2, by simp⟩
+  exact ⟨P, B, hP, hB, hg.1, hg.2.2.2.1, by simp⟩
+
+/-- outside the batchMessages critical section no batch is in the window "created, first add still to come" -/
+theorem fresh_none_outside_batchMessages (cfg : Cfg) (s : State) (hr : Reachable cfg s) (hlock : s.wlock.isCall = false) :
+    s.fresh = none := by
+  cases hf : s.fresh with
+  | none => rfl
+  | some b =>
+    have := (invFresh cfg s hr).freshLock (by simp [hf])
+    rw [hlock] at this; cases this
 
 /-- **flushed_by_timer** (enabledness) — an attached batch needs no further input to get queued: in every reachable
-state with w.mutex free, for every partition writer with an attached batch, the three steps "timer fires — detach
+state in which no batchMessages section is open, for every partition writer with an attached batch, the three steps "timer fires — detach
 — queue.Put" are enabled one after the other, whatever the callers do, and leave the batch at the tail of the queue
 (unless Close already closed the queue, in which case Close itself had queued the batch). -/
-theorem flushed_by_timer (cfg : Cfg) (s : State) (hr : Reachable cfg s) (pw b : Nat) (P : PW)
+theorem flushed_by_timer (cfg : Cfg) (s : State) (hr : Reachable cfg s) (hlock : s.wlock.isCall = false) (pw b : Nat) (P : PW)
     (hP : s.pws pw = some P) (hc : P.curr = some b) (hpend : P.pending = none) :
     ∃ s1 s2 s3, step cfg s (.timerFire pw b true) = some s1 ∧ step cfg s1 (.detach pw b .timer 0) = some s2 ∧
       step cfg s2 (.qput P.q b (!P.qclosed)) = some s3 ∧
@@ -166,7 +177,11 @@ theorem flushed_by_timer (cfg : Cfg) (s : State) (hr : Reachable cfg s) (pw b : 
     have hP1 : s1.pws pw = some P := hP
     have hB1 : s1.batches b = some B1 := by simp [s1]
     simp only [step, stepDetach, hP1, hB1]
-    rw [if_pos ⟨hc, hpend, hdet, by simp [whyOk, B1]⟩]
+    have hfr : s1.fresh ≠ some b := by
+      have : s.fresh = none := fresh_none_outside_batchMessages cfg s hr hlock
+      show s.fresh ≠ some b
+      rw [this]; simp
+    rw [if_pos ⟨hc, hpend, hdet, by simp [whyOk, B1], hfr⟩]
   have h3 : step cfg s2 (.qput P.q b (!P.qclosed)) = some s3 := by
     have hq2 : s2.qOf P.q = some pw := hq
     have hP2 : s2.pws pw = some P2 := by simp [s2]
@@ -183,12 +198,30 @@ hand-over to the queue, its sender goroutine, the broker's answers — `internal
 anything is left in its pipeline, without any caller event, and (2) each of them strictly decreases the natural
 number `pwCost`; hence (3) at most `pwCost` of them empty the pipeline, completing every batch that was in it. -/
 
+/-- **produce_nonempty** — no produce request is empty: a batch is handed to the queue only with at least one message
+(newWriteBatch and the first add happen in one partition-mutex section). -/
+theorem produce_nonempty (cfg : Cfg) (s s' : State) (hr : Reachable cfg s) (pw : Nat) (tp : TP) (msgs : List Msg) (out : BrOut)
+    (hs : step cfg s (.produce pw tp msgs out) = some s') : msgs ≠ [] := by
+  have hA := invAck cfg s hr
+  have hF := invFresh cfg s hr
+  simp only [step, stepProduce] at hs
+  repeat' split at hs
+  all_goals (first | (cases hs; done) | skip)
+  rename_i _ P hP _ b k hsend _ B hB hg
+  obtain ⟨-, -, -, hm, -⟩ := hg
+  have hdet := hA.sentDet pw P hP b (sender_mem_sent (by rw [hsend]; rfl)) B hB
+  have := hF.detNonempty b B hB hdet
+  intro he
+  rw [← hm] at he
+  exact this (List.map_eq_nil_iff.mp he)
+
 /-- **progress_enabled** — while a partition writer has anything attached, pending, queued or in the sender's hands,
-one of its internal events is enabled (MaxAttempts ≥ 1, as `maxAttempts()` guarantees). -/
-theorem progress_enabled (cfg : Cfg) (hmax : 1 ≤ cfg.maxAttempts) (s : State) (hr : Reachable cfg s) (pw : Nat) (P : PW)
-    (hP : s.pws pw = some P) (hne : P.pipe ≠ []) :
+one of its internal events is enabled, provided no batchMessages critical section is open (a caller inside it holds the
+partition mutex and leaves by itself); MaxAttempts ≥ 1, as `maxAttempts()` guarantees. -/
+theorem progress_enabled (cfg : Cfg) (hmax : 1 ≤ cfg.maxAttempts) (s : State) (hr : Reachable cfg s)
+    (hlock : s.wlock.isCall = false) (pw : Nat) (P : PW) (hP : s.pws pw = some P) (hne : P.pipe ≠ []) :
     ∃ e, internalFor s pw e = true ∧ (step cfg s e).isSome = true :=
-  internal_enabled cfg hmax s hr pw P hP hne
+  internal_enabled cfg hmax s hr (fresh_none_outside_batchMessages cfg s hr hlock) pw P hP hne
 
 /-- **progress_measure** — every internal event of the partition writer strictly decreases `pwCost`
 (3·(MaxAttempts − k) + … for the batch being sent, 3·MaxAttempts + 3 per queued batch, +1 / +3 or 4 for a pending /
@@ -203,11 +236,12 @@ continuation consisting only of that writer's internal events, of length ≤ `pw
 empty and every batch that was in it — in particular the attached one holding the most recently accepted messages —
 is completed: acknowledged, or failed permanently / after MaxAttempts attempts. -/
 theorem flushed_without_further_input (cfg : Cfg) (hmax : 1 ≤ cfg.maxAttempts) (s : State) (hr : Reachable cfg s)
-    (pw : Nat) (P : PW) (hP : s.pws pw = some P) :
+    (hlock : s.wlock.isCall = false) (pw : Nat) (P : PW) (hP : s.pws pw = some P) :
     ∃ es s' P', internalRun cfg pw s es = some s' ∧ run cfg s es = some s' ∧ s'.pws pw = some P' ∧ P'.pipe = [] ∧
       es.length ≤ pwCost cfg s.batches P ∧
       ∀ b ∈ P.pipe, ∃ B' code, s'.batches b = some B' ∧ B'.done = some code := by
-  obtain ⟨es, s', P', h1, h2, h3, h4, h5⟩ := flush_completes cfg hmax _ s hr pw P hP (Nat.le_refl _)
+  obtain ⟨es, s', P', h1, h2, h3, h4, h5⟩ :=
+    flush_completes cfg hmax _ s hr (fresh_none_outside_batchMessages cfg s hr hlock) pw P hP (Nat.le_refl _)
   exact ⟨es, s', P', h1, internalRun_is_run cfg pw es s s' h1, h2, h3, h4, h5⟩
 
 /-- **sent_after_predecessors** — the sender goroutine takes a batch only from the head of its FIFO queue and only
@@ -230,6 +264,107 @@ theorem queue_put_at_tail (cfg : Cfg) (s s' : State) (q b : Nat) (acc : Bool) (h
   rename_i _ pw hq _ P hP hg
   cases hs
   exact ⟨pw, P, hq, hP, hg.1, hg.2.2, by simp⟩
+
+/-! ### nothing is dropped on the way: every accepted message is in a batch, every unfinished batch is in a pipeline -/
+
+/-- **no_batch_dropped** — a batch that has not been completed is in the pipeline of its partition writer: still
+attached, detached and about to be queued, in the queue, or with the sender goroutine.  Nothing is lost between
+writeMessages and the sender; in particular a closed queue is never handed a batch. -/
+theorem no_batch_dropped (cfg : Cfg) (s : State) (hr : Reachable cfg s) (b : Nat) (B : Batch) (hB : s.batches b = some B)
+    (hd : B.done = none) : ∃ P, s.pws B.pw = some P ∧ b ∈ P.pipe :=
+  invLive cfg s hr b B hB hd
+
+/-- **accepted_messages_all_queued** — once a call is past batchMessages (it waits for its batches, or it has returned
+with anything but a rejection: nil, a WriteErrors, the Async nil, or ctx.Err()), every one of its messages sits in a
+batch, and that batch is either completed or in the pipeline of its partition writer. -/
+theorem accepted_messages_all_queued (cfg : Cfg) (s : State) (hr : Reachable cfg s) (c : Nat) (C : Call) (hC : s.calls c = some C)
+    (hph : C.phase = .batched ∨ (C.phase = .returned ∧ ∃ r, C.result = some r ∧ r.isReject = false))
+    (i : Nat) (hi : i < C.msgs.length) :
+    ∃ b B, C.place i = some b ∧ s.batches b = some B ∧ (∃ m ∈ B.msgs, m.msg = (c, i)) ∧
+      ((∃ code, B.done = some code) ∨ ∃ P, s.pws B.pw = some P ∧ b ∈ P.pipe) := by
+  obtain ⟨b, hb⟩ := placedAll_elim (invQueued cfg s hr c C hC hph) i hi
+  obtain ⟨B, hB, hm, -⟩ := (invPlace cfg s hr).placed c C hC i b hb
+  refine ⟨b, B, hb, hB, hm, ?_⟩
+  cases hd : B.done with
+  | some code => exact Or.inl ⟨code, rfl⟩
+  | none => exact Or.inr (invLive cfg s hr b B hB hd)
+
+/-- **accepted_message_completes** — the per-message form of `flushed_without_further_input`: for every message of
+such a call there is a continuation made only of internal events of one partition writer (timer, queue, sender,
+broker answers — no further WriteMessages, no Close) after which the batch holding the message is completed. -/
+theorem accepted_message_completes (cfg : Cfg) (hmax : 1 ≤ cfg.maxAttempts) (s : State) (hr : Reachable cfg s)
+    (hlock : s.wlock.isCall = false) (c : Nat) (C : Call) (hC : s.calls c = some C)
+    (hph : C.phase = .batched ∨ (C.phase = .returned ∧ ∃ r, C.result = some r ∧ r.isReject = false))
+    (i : Nat) (hi : i < C.msgs.length) :
+    ∃ b pw es s' B' code, C.place i = some b ∧ internalRun cfg pw s es = some s' ∧ run cfg s es = some s' ∧
+      s'.batches b = some B' ∧ B'.done = some code := by
+  obtain ⟨b, B, hb, hB, -, hdone | ⟨P, hP, hmem⟩⟩ := accepted_messages_all_queued cfg s hr c C hC hph i hi
+  · obtain ⟨code, hc⟩ := hdone
+    exact ⟨b, B.pw, [], s, B, code, hb, rfl, rfl, hB, hc⟩
+  · obtain ⟨es, s', P', hint, hrun, -, -, -, hall⟩ := flushed_without_further_input cfg hmax s hr hlock B.pw P hP
+    obtain ⟨B', code, hB', hc⟩ := hall b hmem
+    exact ⟨b, B.pw, es, s', B', code, hb, hint, hrun, hB', hc⟩
+
+/-- **cancelled_call_still_flushed** — WriteMessages returning ctx.Err() withdraws nothing: the return changes no
+batch, no partition writer and no log, every message of the cancelled call is in a batch, and each of these batches is
+completed by internal events alone — the messages of a cancelled call are sent exactly like those of any other. -/
+theorem cancelled_call_still_flushed (cfg : Cfg) (hmax : 1 ≤ cfg.maxAttempts) (s s' : State) (hr : Reachable cfg s) (c : Nat)
+    (hs : step cfg s (.ret c .ctx) = some s') (hlock : s.wlock.isCall = false) :
+    s'.batches = s.batches ∧ s'.pws = s.pws ∧ s'.log = s.log ∧
+    ∃ C, s'.calls c = some C ∧ C.result = some .ctx ∧ ∀ i, i < C.msgs.length →
+      ∃ b pw es s'' B' code, C.place i = some b ∧ internalRun cfg pw s' es = some s'' ∧ run cfg s' es = some s'' ∧
+        s''.batches b = some B' ∧ B'.done = some code := by
+  have hr' := reachable_step hr hs
+  simp only [step, stepRet] at hs
+  repeat' split at hs
+  all_goals (first | (cases hs; done) | skip)
+  rename_i _ C hC hg
+  cases hs
+  refine ⟨rfl, rfl, rfl, { C with phase := .returned, result := some .ctx, endSeq := some s.seq }, by simp, rfl, ?_⟩
+  intro i hi
+  exact accepted_message_completes cfg hmax _ hr' hlock c
+    { C with phase := .returned, result := some .ctx, endSeq := some s.seq } (by simp) (Or.inr ⟨rfl, .ctx, rfl, rfl⟩) i hi
+
+/-- **quiesces_without_further_input** — the whole-writer form of `flushed_without_further_input`: from every reachable
+state in which no call is inside batchMessages there is a continuation made only of internal events (timer expiries,
+queue hand-overs, sender steps, broker answers; no WriteMessages step, no Close step) after which **every** batch of
+every partition writer is completed — acknowledged, or failed permanently / after MaxAttempts attempts — and no call
+record has changed. -/
+theorem quiesces_without_further_input (cfg : Cfg) (hmax : 1 ≤ cfg.maxAttempts) (s : State) (hr : Reachable cfg s)
+    (hlock : s.wlock.isCall = false) :
+    ∃ es s', run cfg s es = some s' ∧ es.all Event.internal = true ∧ s'.calls = s.calls ∧
+      ∀ b B, s'.batches b = some B → ∃ code, B.done = some code := by
+  obtain ⟨es, s', h1, h2, h3, -, h5⟩ := drains cfg hmax s hr (fresh_none_outside_batchMessages cfg s hr hlock)
+  exact ⟨es, s', h1, h2, h3, h5⟩
+
+/-- **everything_completed_when_close_returns** — Close can return only when every batch the writer ever created is
+completed: all senders have exited, an exited sender's queue is empty and closed, a closed queue's writer has nothing
+attached or pending, and a batch that is not completed would have to be in one of these places (`no_batch_dropped`).
+So nothing accepted is left unsent behind a returned Close. -/
+theorem everything_completed_when_close_returns (cfg : Cfg) (hmax : 1 ≤ cfg.maxAttempts) (s s' : State) (hr : Reachable cfg s)
+    (hs : step cfg s .closeReturn = some s') :
+    ∀ b B, s.batches b = some B → ∃ code, B.done = some code := by
+  simp only [step] at hs
+  repeat' split at hs
+  all_goals (first | (cases hs; done) | skip)
+  rename_i hg
+  obtain ⟨-, -, -, hall⟩ := hg
+  intro b B hB
+  cases hd : B.done with
+  | some code => exact ⟨code, rfl⟩
+  | none =>
+    exfalso
+    obtain ⟨P, hP, hmem⟩ := invLive cfg s hr b B hB hd
+    have hlisted := (invSched cfg s hr).pwListed B.pw P hP
+    rw [List.all_eq_true] at hall
+    have hex := hall B.pw hlisted
+    rw [hP] at hex
+    have hexited : P.sender = .exited := by simpa using hex
+    obtain ⟨hq, hqc⟩ := ((invProg cfg hmax s hr).pw B.pw P hP).exitedEmpty hexited
+    obtain ⟨-, hcurr, hpend⟩ := (invClosedQ cfg s hr).closedQ B.pw P hP hqc
+    have : P.pipe = [] := by simp [PW.pipe, hexited, Sender.batch?, hq, hcurr, hpend]
+    rw [this] at hmem
+    cases hmem
 
 /-! ### the decision logic of the model is the one in the source (regenerated on every run by go/extract/writer) -/
 
@@ -288,5 +423,15 @@ example : (run exCfg State.init
 
 example : (run exCfg State.init
     [ .enter true, .begin_ 1 [{ size := 50, topic := "" }, { size := 101, topic := "" }], .reject 1 .toolarge 1 ]).isSome = true := by decide
+
+/-- a cancelled synchronous call: WriteMessages returns ctx.Err() while its only batch is still attached; timer, queue
+and sender then produce the message all the same (non-vacuity of `cancelled_call_still_flushed`) -/
+example : ((run { exCfg with async := false } State.init
+    [ .enter true, .begin_ 1 [{ size := 50, topic := "" }], .assign 1 0 ("t", 0), .batch 1, .newPW 1 1 ("t", 0),
+      .newBatch 1 1, .add 1 1 1 0 50, .batched 1, .ret 1 .ctx,
+      .timerFire 1 1 true, .detach 1 1 .timer 0, .qput 1 1 true, .qget 1 (some 1), .attempt 1 1 0,
+      .produce 1 ("t", 0) [(1, 0)] .acked, .attemptDone 1 1 0 0, .complete 1 1 0 ]).map
+        (fun s => ((s.log ("t", 0)).map (·.msg), (s.calls 1).map (·.result)))) =
+    some ([(1, 0)], some (some .ctx)) := by decide
 
 end KV.C08
